@@ -461,7 +461,7 @@ func (i *Interp) callSSA(caller *frame, fn *ssa.Function, args []value, env []va
 		i.stubs["harness:"+key]++
 		return i.callSSA(caller, st, args, nil)
 	}
-	if in, ok := intrinsics[key]; ok {
+	if in, ok := intrinsics[key]; ok && !(tmplSrcSkip[key] && i.params["__tmplsrc"] == 1) {
 		i.stubs[key]++
 		return in(i, caller, fn, args)
 	}
